@@ -82,6 +82,20 @@ PROPS = {
         assumptions=["convergence of OpenMDAO's nonlinear solvers is runtime behaviour; uniqueness of the consistent state is a hypothesis",
                      "the rigid limit needs bounded aerodynamic loads (hypothesis)"],
     ),
+    "C14": dict(
+        components=["ScaleX"],
+        history_components=[],
+        extra_suites=[suites.meshgen_suite],
+        assumptions=["blends in [0,1] (the undocumented span_cos_spacing == 2 branch is not modelled)",
+                     "CRM planform data, multi-section stitching and unify_mesh are evaluated on the real code by the oracle, not modelled"],
+    ),
+    "C20": dict(
+        components=[],
+        history_components=[],
+        extra_suites=[suites.validation_suite],
+        oracle_cases=dict(quick=3, thorough=20),
+        assumptions=["finiteness, repeatability and non-mutation of user arrays are runtime/aliasing behaviour: monitored by the oracle, not proved"],
+    ),
     "C05": dict(
         components=["CollocationPoints", "VortexMesh", "EvalVelMtx", "Horseshoe", "VLMGeometry"],
         extra_suites=[suites.aero_pipeline_suite],
